@@ -31,6 +31,9 @@ def _count(maxn):
     return sum(3 ** (m + n) for (m, n) in _shapes(maxn))
 
 
+_PREV = []
+
+
 def _call(ctx, A, q0, q1, sig, nontrivial=True):
     A0, q00, q10 = oracles.snapshot_arrays(A, q0, q1)
     q00, q10 = np.asarray(q00), np.asarray(q10)
@@ -38,6 +41,13 @@ def _call(ctx, A, q0, q1, sig, nontrivial=True):
     with monitor.write_protected(A, q0, q1):
         res = ptn.qr(A, q0, q1)
     oracles.check_qr(ctx, A0, q00, q10, (A, q0, q1), res)
+    # the result of the PREVIOUS call must still be a factorisation of the previous matrix (no output buffer reused between calls)
+    if _PREV:
+        pA, pres = _PREV.pop()
+        if isinstance(pres, tuple) and len(pres) == 3 and np.asarray(pres[0]).ndim == 2:
+            ctx.close('qr.previous-result-still-valid', float(np.linalg.norm(np.asarray(pres[0]) @ np.asarray(pres[1]) - pA)), 1e-11 * max(float(np.linalg.norm(pA)), 1e-300) + 0.0,
+                      'the result of an earlier qr call was altered by a later call', {'A': pA})
+    _PREV.append((A0, res))
     return res
 
 
